@@ -201,3 +201,18 @@ def storage(prop, module, spec_prefixes, corr_kinds, assumptions, n_quick=160, n
 
 
 PROPS = {}
+
+ASSUME_NODE = [
+    "correspondence is differential testing: a divergence outside the generated histories is not seen",
+    "one OS process per server incarnation; restart = graceful System::shutdown + runtime shutdown + new process on the same directory",
+    "virtual clock (hook H1) drives every timestamp; wall-clock time plays no role",
+]
+
+POLL_CLASSES = ["poll-", "cur", "get-offset", "store-offset", "offset-"]
+
+PROPS["C17"] = {"run": lambda p, tier, seed, replay, t0: run_node_property(
+    p, tier, seed, replay, t0, module="Iggy.Props.C17", gen=gen_storage.gen_c17,
+    n_quick=120, n_thorough=2500, spec_prefixes=["poll-"],
+    corr_kinds={"send", "poll-offsets", "poll-content", "poll-cur", "poll-status", "poll-partition",
+                "create-parts", "delete-parts"},
+    assumptions=ASSUME_NODE + ["xxhash32 is a parameter of the theorems (all hash values); the real calculate_32 is called through the harness and its value fed to the model"])}
